@@ -13,3 +13,10 @@ func WallNS() int64 {
 	syscall.Syscall(syscall.SYS_CLOCK_GETTIME, 1 /* CLOCK_MONOTONIC */, uintptr(unsafe.Pointer(&ts)), 0)
 	return ts.Sec*1e9 + ts.Nsec
 }
+
+// RealSleep blocks the calling thread for d of real time through a raw syscall
+// (the runtime's timers may be virtual). Only for infrastructure back-off, never for verdicts.
+func RealSleep(ns int64) {
+	ts := syscall.Timespec{Sec: ns / 1e9, Nsec: ns % 1e9}
+	syscall.Nanosleep(&ts, nil)
+}
